@@ -25,6 +25,7 @@ MCNext ==
   \/ /\ (SndLoop \/ (SndRecv /\ ~Held) \/ SndRLock \/ SndRUnlock \/ SndExit1 \/ SndExit2 \/ SndExit3) /\ H([p |-> "snd", l |-> pc.snd, c |-> ""])
   \/ /\ Rcv /\ H([p |-> "rcv", l |-> pc.rcv, c |-> ""])
   \/ /\ \E m \in 1..NQ : EnvResp(m) /\ H([p |-> "env", l |-> "resp", c |-> ToString(m)])
+  \/ /\ \E m \in 1..NQ : EnvRespBad(m) /\ H([p |-> "env", l |-> "respbad", c |-> ToString(m)])
   \/ /\ EnvRecvErr /\ H([p |-> "env", l |-> "err", c |-> ""])
   \/ /\ EnvBrokenRecv /\ H([p |-> "env", l |-> "err", c |-> "broken"])
   \/ /\ EnvEOF /\ H([p |-> "env", l |-> "eof", c |-> ""])
